@@ -11,7 +11,7 @@ PLAN = {
     "C04": ["serverconn", "chain"],
     "C05": ["c05", "chain", "assembly"],
     "C06": ["tlspump", "live", "logfault", "slowhandler"],
-    "C07": ["serverconn", "tlspump"],
+    "C07": ["serverconn", "tlspump", "live"],
     "C15": ["serverconn", "tlspump", "live"],
     "C11": ["clientconn", "c03"],
     "C20": ["tlspump", "live"],
